@@ -328,7 +328,8 @@ def autograd(ctx) -> None:
             if i in (0, 6, 7):
                 pos_ok[i] = pos_ok[i] and v0 == ("const", None)
                 continue
-            if needs.get(i) is False:
+            if needs.get(i) is not True:
+                # not requested (or never asked) on this path: the slot must be None
                 guard_ok[i] = guard_ok[i] and v0 == ("const", None)
             elif needs.get(i) is True:
                 if i <= 4:
